@@ -43,9 +43,9 @@ theorem deadline_formula (c : Cfg) (ops : List Op) (id : Nat) (tr : Tr)
     (h : AList.get (run c ops).buf id = some tr) :
     ∃ a, (Spec.run c ops).arr id = some a ∧ tr.sendBy = documented c a ∧
       tr.first = a.first ∧ tr.count = a.count ∧ tr.hasRoot = a.rootAt.isSome := by
-  obtain ⟨_, _, _, h4, _⟩ := inv_run c ops
+  obtain ⟨_, _, _, h4, _, _⟩ := inv_run c ops
   obtain ⟨_, a, ha, hrel⟩ := h4 id tr h
-  exact ⟨a, ha, hrel.sendBy, hrel.first, hrel.count, hrel.root⟩
+  exact ⟨a, ha, by rw [documented_eq]; exact hrel.sendBy, hrel.first, hrel.count, hrel.root⟩
 
 /-- `SendBy` is only ever lowered: whatever the operation, a trace that stays buffered has a
 `SendBy` not later than before. -/
@@ -96,7 +96,7 @@ theorem sendBy_only_lowered (s : St) (o : Op) (id : Nat) (tr tr' : Tr)
 theorem not_before_deadline_step (s : St) (hwf : AList.NoDupKeys s.buf) (taken : List Nat)
     (l : List Sent) (left : List Nat) (h : (step s (.tick taken)).2 = .sent l left) :
     ∀ x ∈ l, ∃ tr, AList.get s.buf x.1 = some tr ∧ tr.sendBy ≤ s.now := by
-  obtain ⟨hv, hl, _⟩ := tick_accepted h
+  obtain ⟨hv, hl, _, _⟩ := tick_accepted h
   intro x hx
   rw [hl] at hx
   obtain ⟨hin, tr, hg, _⟩ := mem_sentOf hx
@@ -145,22 +145,11 @@ theorem edf_prefix (s : St) (hwf : AList.NoDupKeys s.buf) (taken : List Nat) (l 
     ∃ order : List Nat, order.Perm (expiredIds s) ∧
       order.Pairwise (fun a b => sb s a ≤ sb s b) ∧
       taken = order.take (takeLen s.cfg (expiredIds s).length) := by
-  obtain ⟨⟨hnd, hsub, hpw, hrest, hlen⟩, hl, _⟩ := tick_accepted h
+  obtain ⟨⟨hnd, hsub, hpw, hrest, hlen⟩, hl, _, _⟩ := tick_accepted h
   constructor
   · -- every taken id is buffered, so the decided list has exactly these ids in this order
     rw [hl]
-    have : ∀ ids : List Nat, (∀ id ∈ ids, id ∈ expiredIds s) →
-        (sentOf s (reasonOf s.cfg) ids).map (·.1) = ids := by
-      intro ids
-      induction ids with
-      | nil => intro _; rfl
-      | cons a t ih =>
-        intro hs
-        obtain ⟨tr, hg, _⟩ := (mem_expiredIds hwf).mp (hs a List.mem_cons_self)
-        have iht := ih (fun id hid => hs id (List.mem_cons_of_mem _ hid))
-        simp only [sentOf, List.filterMap_cons, hg, Option.map_some, List.map_cons] at iht ⊢
-        rw [iht]
-    exact this taken hsub
+    exact sentOf_ids _ taken (fun id hid => expiredIds_sub_keys s id (hsub id hid))
   · let rest := (expiredIds s).filter (fun x => decide (x ∉ taken))
     refine ⟨taken ++ sortBy (sb s) rest, ?_, ?_, ?_⟩
     · have hp : (taken ++ sortBy (sb s) rest).Perm (taken ++ rest) :=
@@ -192,6 +181,167 @@ theorem edf_prefix (s : St) (hwf : AList.NoDupKeys s.buf) (taken : List Nat) (l 
       exact hrest b hb'.1 hb'.2 a ha
     · rw [← hlen, List.take_left']
       rfl
+
+/-! ## after the deadline: decided at the next ticks, MaxExpiredTraces per tick, no starvation -/
+
+/-- **tick_progress** — one tick at `now ≥ D` with `MaxExpiredTraces = m` decides `m` of the traces
+whose deadline is `≤ D`, or all of them if there are fewer (with no limit: all of them). -/
+theorem tick_progress (s : St) (hwf : AList.NoDupKeys s.buf) (D : Int) (hD : D ≤ s.now)
+    (taken : List Nat) (l : List Sent) (left : List Nat)
+    (h : (step s (.tick taken)).2 = .sent l left) :
+    let s' := (step s (.tick taken)).1
+    match s.cfg.effMax with
+    | none => backlog s' D = 0
+    | some m => backlog s' D = 0 ∨ backlog s' D + m ≤ backlog s D := by
+  obtain ⟨⟨hnd, hsub, _, hrest, hlen⟩, _, hs', _⟩ := tick_accepted h
+  intro s'
+  have hb' : backlog s' D =
+      s.buf.countP (fun p => decide (p.2.sendBy ≤ D) && decide (p.1 ∉ taken)) := by
+    simp only [backlog, s', hs', removeIds, List.countP_filter]
+  -- an entry counted in the new backlog is an expired trace that was not taken
+  have hexp : ∀ p ∈ s.buf, p.2.sendBy ≤ D → p.1 ∈ expiredIds s := by
+    intro p hp hle
+    exact (mem_expiredIds hwf).mpr ⟨p.2, AList.get_of_mem hwf hp, by omega⟩
+  have hzero_of_all : (∀ x ∈ expiredIds s, x ∈ taken) → backlog s' D = 0 := by
+    intro hall
+    rw [hb', List.countP_eq_zero]
+    intro p hp
+    simp only [Bool.and_eq_true, decide_eq_true_eq, not_and, Decidable.not_not]
+    intro hle
+    exact hall p.1 (hexp p hp hle)
+  have hall_of_len : taken.length = (expiredIds s).length → ∀ x ∈ expiredIds s, x ∈ taken :=
+    fun hl => subset_of_nodup_length (expiredIds_nodup hwf) hnd hsub hl
+  by_cases hcase : ∀ y ∈ taken, sb s y ≤ D
+  · -- every taken trace counted in the old backlog
+    have hsplit := countP_split (fun p : Nat × Tr => decide (p.2.sendBy ≤ D))
+      (fun p => decide (p.1 ∉ taken)) s.buf
+    have htaken : s.buf.countP (fun p => decide (p.2.sendBy ≤ D) && !decide (p.1 ∉ taken)) = taken.length := by
+      rw [← countP_keys_mem s.buf hwf taken hnd (fun id hid => expiredIds_sub_keys s id (hsub id hid))]
+      apply List.countP_congr
+      intro p hp
+      simp only [Bool.and_eq_true, decide_eq_true_eq, Bool.not_eq_true', decide_eq_false_iff_not,
+        Decidable.not_not]
+      constructor
+      · exact fun h => h.2
+      · intro hin
+        exact ⟨by rw [← sb_of_mem hwf hp]; exact hcase p.1 hin, hin⟩
+    have hsum : backlog s D = backlog s' D + taken.length := by
+      rw [hb', ← htaken]; exact hsplit
+    cases hm : s.cfg.effMax with
+    | none =>
+      simp only
+      apply hzero_of_all
+      apply hall_of_len
+      simp only [takeLen, hm] at hlen; exact hlen
+    | some m =>
+      simp only
+      simp only [takeLen, hm] at hlen
+      by_cases hmin : m ≤ (expiredIds s).length
+      · right; rw [hsum, hlen, Nat.min_eq_left hmin]; omega
+      · left
+        apply hzero_of_all
+        apply hall_of_len
+        rw [hlen, Nat.min_eq_right (by omega)]
+  · -- some taken trace is later than D: nothing with SendBy ≤ D can have been left behind
+    have hz : backlog s' D = 0 := by
+      rw [hb', List.countP_eq_zero]
+      intro p hp
+      simp only [Bool.and_eq_true, decide_eq_true_eq, not_and, Decidable.not_not]
+      intro hle
+      apply Classical.byContradiction
+      intro hnin
+      apply hcase
+      intro y hy
+      have := hrest p.1 (hexp p hp hle) hnin y hy
+      rw [sb_of_mem hwf hp] at this
+      omega
+    cases hm : s.cfg.effMax with
+    | none => exact hz
+    | some m => exact Or.inl hz
+
+/-- Once the clock has passed `D`, no operation adds to the backlog of deadlines `≤ D`: a new trace
+or a lowered `SendBy` is never earlier than the current instant. -/
+theorem backlog_step_le (s : St) (hwf : AList.NoDupKeys s.buf) (D : Int) (hD : D < s.now) (o : Op) :
+    backlog (step s o).1 D ≤ backlog s D := by
+  cases o with
+  | adv d => exact Nat.le_refl _
+  | span id root size =>
+    simp only [step, processSpan]
+    cases hg : AList.get s.buf id with
+    | some tr => exact backlog_addSpan_le s hwf D hD id tr root size (by simp [hg])
+    | none =>
+      simp only
+      split
+      · exact Nat.le_refl _
+      · have := effTimeout_pos s.cfg
+        exact backlog_addSpan_le s hwf D hD id _ root size (by simp [hg]; omega)
+  | tick taken =>
+    simp only [step, tick]
+    split
+    · exact backlog_removeIds_le s taken D
+    · exact Nat.le_refl _
+  | eject b i o =>
+    simp only [step, eject]
+    split
+    · exact backlog_removeIds_le s o D
+    · exact Nat.le_refl _
+
+/-- 1 if the operation is a tick that the acceptor admits (i.e. a tick as the implementation can
+perform it), else 0 -/
+def isAcceptedTick (s : St) : Op → Nat
+  | .tick taken => if ValidTake s taken then 1 else 0
+  | _ => 0
+
+/-- number of (admissible) ticks in a run from `s` -/
+def ticksIn : St → List Op → Nat
+  | _, [] => 0
+  | s, o :: os => isAcceptedTick s o + ticksIn (step s o).1 os
+
+theorem backlog_tick_step (s : St) (hwf : AList.NoDupKeys s.buf) (D : Int) (hD : D < s.now)
+    (m : Nat) (hm : s.cfg.effMax = some m) (o : Op) :
+    backlog (step s o).1 D ≤ backlog s D - m * isAcceptedTick s o := by
+  cases o with
+  | tick taken =>
+    simp only [isAcceptedTick]
+    by_cases hv : ValidTake s taken
+    · simp only [hv, if_true, Nat.mul_one]
+      have hout : (step s (.tick taken)).2 = .sent (sentOf s (reasonOf s.cfg) taken) (leftIds (removeIds s taken)) := by
+        simp [step, tick, hv]
+      have := tick_progress s hwf D (by omega) taken _ _ hout
+      simp only [hm] at this
+      omega
+    · simp only [hv, if_false, Nat.mul_zero, Nat.sub_zero]
+      exact backlog_step_le s hwf D hD _
+  | adv d => simpa [isAcceptedTick] using backlog_step_le s hwf D hD (.adv d)
+  | span id root size => simpa [isAcceptedTick] using backlog_step_le s hwf D hD (.span id root size)
+  | eject b i o => simpa [isAcceptedTick] using backlog_step_le s hwf D hD (.eject b i o)
+
+/-- **no_starvation (bound)** — once the clock has passed `D`, along ANY continuation (arrivals,
+clock advances, ejections, ticks with any admissible tie-break) the number of still-buffered traces
+with deadline `≤ D` is at most the initial number minus `MaxExpiredTraces` per tick performed. -/
+theorem backlog_bound (s : St) (hwf : AList.NoDupKeys s.buf) (D : Int) (hD : D < s.now)
+    (m : Nat) (hm : s.cfg.effMax = some m) (ops : List Op) :
+    backlog (runFrom s ops) D ≤ backlog s D - m * ticksIn s ops := by
+  induction ops generalizing s with
+  | nil => simp [runFrom, ticksIn]
+  | cons o os ih =>
+    have h1 := backlog_tick_step s hwf D hD m hm o
+    have hwf' := step_nodup s o hwf
+    have hD' : D < (step s o).1.now := by have := step_now_le s o; omega
+    have hm' : (step s o).1.cfg.effMax = some m := by rw [step_cfg]; exact hm
+    have h2 := ih (step s o).1 hwf' hD' hm'
+    simp only [runFrom, List.foldl_cons, ticksIn] at h2 ⊢
+    rw [Nat.mul_add]
+    omega
+
+/-- **no_starvation** — the `N` traces whose deadline is `≤ D` are all decided within `⌈N / max⌉`
+ticks after `D`, whatever else arrives in between: if `N ≤ max · (number of ticks)` none is left. -/
+theorem no_starvation (s : St) (hwf : AList.NoDupKeys s.buf) (D : Int) (hD : D < s.now)
+    (m : Nat) (hm : s.cfg.effMax = some m) (ops : List Op)
+    (hk : backlog s D ≤ m * ticksIn s ops) :
+    backlog (runFrom s ops) D = 0 := by
+  have := backlog_bound s hwf D hD m hm ops
+  omega
 
 /-! ## reason_selection -/
 
@@ -237,7 +387,7 @@ theorem reason_selection_partial (c : Cfg) (hlim : c.spanLimit < countModulus) (
     (taken : List Nat) (l : List Sent) (left : List Nat)
     (h : (step (run c ops) (.tick taken)).2 = .sent l left) :
     ∀ x ∈ l, ∃ a, (Spec.run c ops).arr x.1 = some a ∧ x.2.1 = documentedReason c a := by
-  obtain ⟨_, hl, _⟩ := tick_accepted h
+  obtain ⟨_, hl, _, _⟩ := tick_accepted h
   have hcfg : (run c ops).cfg = c := (inv_run c ops).1
   intro x hx
   rw [hl] at hx
